@@ -621,6 +621,7 @@ func (ex *Exec) verifyTop(fn *ssa.Function, con *Contract) {
 	}
 	ex.preimageObligations(fr, con, entryEnv, post, retG, pos)
 	ex.wireLenObligations(fr, con, post, retG, pos)
+	ex.pureObligations(fr, con, retG, retMem, pos)
 	ex.finish(nReq)
 }
 
